@@ -147,11 +147,17 @@ Fixpoint flat_fields (E : env) (fuel : nat) (fs : list field) : list field :=
 Definition fields_of (E : env) (k : string) : list field := flat_fields E 3 (struct_fields E k).
 Definition fields_of_parts (E : env) (parts : list string) : list field := flat_map (fields_of E) parts.
 
+(* [acc] holds the members that were present with a non-null value; a pointer field set from such a
+   member is a non-nil pointer and is never "empty", whatever it encodes to *)
 Definition emit_fields (E : env) (fs : list field) (acc : list (string * json)) : list (string * json) :=
   flat_map (fun f =>
     if f_skip f then [] else
-    let v := match assoc (f_json f) acc with Some v => v | None => zero_of E (f_ty f) end in
-    if f_omit f && is_empty E (f_ty f) v then [] else [(f_json f, v)]) fs.
+    match assoc (f_json f) acc with
+    | Some v => let empty := match f_ty f with TPtr _ => false | t => is_empty E t v end in
+                if f_omit f && empty then [] else [(f_json f, v)]
+    | None => let v := zero_of E (f_ty f) in
+              if f_omit f && is_empty E (f_ty f) v then [] else [(f_json f, v)]
+    end) fs.
 
 (* ---------- $ref / $schema members ---------- *)
 Inductive refres := RefNone | RefStr (s : string) | RefBad | RefUnsup.
@@ -218,7 +224,9 @@ Fixpoint insert_item (x : string * json) (l : list (string * json)) : list (stri
 Definition order_items (l : list (string * json)) : list (string * json) := fold_right insert_item [] l.
 
 (* ---------- the codec ---------- *)
-Definition is_int_literal (m e : Z) : bool := Z.eqb e 0.
+(* a JSON number decodes into an int64 field when it is written as a plain integer literal in range *)
+Definition is_int_literal (m e : Z) : bool :=
+  Z.eqb e 0 && Z.leb (-9223372036854775808) m && Z.leb m 9223372036854775807.
 
 Definition lift_list (l : list res) : option (list json) + bool :=  (* inr true = unsupported, inr false = error *)
   fold_right (fun r acc =>
@@ -303,7 +311,12 @@ Fixpoint norm (j : json) (t : fty) {struct j} : res :=
       match t with
       | TPtr _ => ROk JNull
       | _ => match head_ty E 6 t with
-             | TNamed k => if String.eqb k "SchemaOrBool" then ROk (JBool true) else ROk (zero_of E t)
+             | TNamed k => if String.eqb k "SchemaOrBool" then ROk (JBool true)
+                           else if mem_str k ["Schema"; "Ref"; "Refable"; "SchemaURL"; "Responses"; "Paths"; "VendorExtensible"] then ROk (JObj [])
+                           else if mem_str k custom_kinds && negb (mem_str k ["Response"; "SecurityScheme"; "Operation"; "Items"]) then ROk JNull
+                           else (* a struct value left at its zero: what its parts encode to *)
+                             concat_parts k (match parts_dec k with [] => [k] | p => p end) [] []
+                                          (match parts_enc k with [] => [k] | p => p end)
              | _ => ROk (zero_of E t)
              end
       end
@@ -446,10 +459,21 @@ Fixpoint norm (j : json) (t : fty) {struct j} : res :=
                | (n, v) :: r =>
                    match find_field fs n with
                    | None => go r acc
-                   | Some f => match norm v (f_ty f) with
-                               | ROk v' => go r (upd (f_json f) v' acc)
-                               | RErr => RErr | RUnsup => RUnsup
-                               end
+                   | Some f =>
+                       match v with
+                       | JNull =>   (* null resets pointers, maps, slices and interfaces; it leaves other fields as they are *)
+                           match f_ty f with
+                           | TPtr _ => go r (remove_key (f_json f) acc)
+                           | t => match head_ty E 6 t with
+                                  | TSlice _ | TMap _ | TIntMap _ | TAny => go r (remove_key (f_json f) acc)
+                                  | _ => go r acc
+                                  end
+                           end
+                       | _ => match norm v (f_ty f) with
+                              | ROk v' => go r (upd (f_json f) v' acc)
+                              | RErr => RErr | RUnsup => RUnsup
+                              end
+                       end
                    end
                end) m []
         | _ => RErr
@@ -501,10 +525,21 @@ Fixpoint norm (j : json) (t : fty) {struct j} : res :=
                | (n, v) :: r =>
                    match find_field fs n with
                    | None => go r acc
-                   | Some f => match norm v (f_ty f) with
-                               | ROk v' => go r (upd (f_json f) v' acc)
-                               | RErr => RErr | RUnsup => RUnsup
-                               end
+                   | Some f =>
+                       match v with
+                       | JNull =>   (* null resets pointers, maps, slices and interfaces; it leaves other fields as they are *)
+                           match f_ty f with
+                           | TPtr _ => go r (remove_key (f_json f) acc)
+                           | t => match head_ty E 6 t with
+                                  | TSlice _ | TMap _ | TIntMap _ | TAny => go r (remove_key (f_json f) acc)
+                                  | _ => go r acc
+                                  end
+                           end
+                       | _ => match norm v (f_ty f) with
+                              | ROk v' => go r (upd (f_json f) v' acc)
+                              | RErr => RErr | RUnsup => RUnsup
+                              end
+                       end
                    end
                end) m []
         | _ => RErr
